@@ -59,7 +59,7 @@ def parseOut : Option (List Elem) → String
   | some es => pathOut es
   | none => "err"
 
-def dstep (s : Unit) (toks : List String) : Unit × String :=
+def dstep0 (s : Unit) (toks : List String) : Unit × String :=
   (s, match toks with
   | ["reset"] => "ok"
   | ["rt", p] =>
@@ -76,7 +76,172 @@ def dstep (s : Unit) (toks : List String) : Unit × String :=
       match parsePath cs with
       | some es => "ok " ++ pathOut es
       | none => "err"
+  | ["parsenr", t] =>
+    -- a node resolver that finds nothing: only `/` and `.` elements can be built
+    match strTok? t with
+    | none => "bad-op"
+    | some cs =>
+      match parsePathWith { current with noResolver := true } cs with
+      | some es => "ok " ++ pathOut es
+      | none => "err"
+  | ["elem", t] =>
+    -- `RelativePathElement::from_str` called directly on a whole text (no tokenizer)
+    match strTok? t with
+    | none => "bad-op"
+    | some cs =>
+      match parseElem current cs with
+      | some e => "ok " ++ elemOut e
+      | none => "err"
   | _ => "bad-op")
+
+
+/-! ### arm tags -/
+open OpcuaVerif.Generated.RefTypes
+
+def hasAmp (cs : List Char) : Bool := cs.contains '&'
+
+def armsTarget (t : List Char) : List String :=
+  match targetName current t with
+  | none => ["tg-ns-overflow"]
+  | some q =>
+    (match spanP isDigit t with
+     | (d, ':' :: _) =>
+       if d.isEmpty then ["tg-colon-no-digits"]
+       else [if q.ns = 65535 then "tg-ns-max" else if q.ns ≥ 10 then "tg-ns-ge10" else if q.ns = 0 then "tg-ns-zero" else "tg-ns-1to9"]
+     | _ => ["tg-ns-none"]) ++
+    [match q.name with
+     | none => "tg-name-null"
+     | some n => if hasAmp t then (if n.contains '&' then "tg-name-escaped-amp" else "tg-name-escaped") else "tg-name-plain"]
+
+def armsBracket (cs : List Char) : List String :=
+  match bracket current cs with
+  | none => []   -- not reachable: `armsElem` passes the text after the `<` at which the bracket matched
+  | some b =>
+    [match b.subtypes, b.inverse with
+     | true, false => "fl-none" | false, false => "fl-hash" | true, true => "fl-bang" | false, true => "fl-hashbang"] ++
+    (match b.nsidx with
+     | none =>
+       -- a leading `digits:` that was NOT taken as the namespace (the name needs it)
+       (match spanP isDigit (if b.subtypes then (if b.inverse then cs.drop 1 else cs) else (if b.inverse then cs.drop 2 else cs.drop 1)) with
+        | (d, ':' :: _) => if d.isEmpty then ["br-ns-none"] else ["br-ns-group-skipped"]
+        | _ => ["br-ns-none"])
+     | some d =>
+       if d = ['0'] then ["br-ns-0"]
+       else match parseUnsigned 65535 d with
+         | none => ["br-ns-overflow"]
+         | some n => [if n = 65535 then "br-ns-max" else if n = 0 then "br-ns-00" else "br-ns-ok"]) ++
+    [if b.name.head? = some '&' then "br-name-escape-first" else if hasAmp b.name then "br-name-has-escape" else "br-name-plain"] ++
+    (let name := unescapeBN b.name
+     let ns := match b.nsidx with
+       | none => 0
+       | some d => (parseUnsigned 65535 d).getD 0
+     if ns = 0 then (if (lookupId name nameToId).isSome then ["res-std"] else ["res-str-ns0"]) else ["res-str-nsN"])
+
+/-- the text after the first `<` at which the bracket alternative matches (where an `.angle` capture starts) -/
+def afterMatchingAngle : List Char → Option (List Char × Bool)
+  | [] => none
+  | c :: r =>
+    if c = '<' ∧ (bracket current r).isSome then some (r, false)
+    else (afterMatchingAngle r).map fun (x, _) => (x, true)
+
+def armsElem (tok : List Char) : List String :=
+  match elemRe current tok with
+  | none => ["el-nomatch"]
+  | some (cap, target) =>
+    (match tok with
+     | c :: r =>
+       if c = '/' ∨ c = '.' then []
+       else if c = '<' then (if (bracket current r).isSome then [] else ["el-angle-failed-later-match"])
+       else ["el-match-not-at-start"]
+     | [] => []) ++
+    (match cap with
+     | .slash => ["el-slash"]
+     | .dot => ["el-dot"]
+     | .angle _ =>
+       -- the text after the `<` at which the match starts
+       "el-angle" :: (match afterMatchingAngle tok with
+         | some (r, later) => (if later then ["el-angle-not-at-start"] else []) ++ armsBracket r
+         | none => [])) ++
+    armsTarget target ++ (if (parseElem current tok).isSome then ["el-ok"] else ["el-err"])
+
+/-- the tokenizer loop with tags (mirrors `tokLoop`) -/
+def tokArms : TS → List Char → List String → List String × LoopOut
+  | s, [], acc => (acc, .run s)
+  | s, c :: cs, acc =>
+    let a :=
+      (if s.esc then ["tok-escaped-char"]
+       else if c = '&' then ["tok-amp"]
+       else if c = '/' ∨ c = '.' ∨ c = '<' then
+         (if s.tok.isEmpty then ["tok-delim-first"]
+          else if s.elems.length = maxElements then ["tok-break-at-max"]
+          else "tok-flush" :: armsElem s.tok)
+       else []) 
+    match tokStep current s c with
+    | .run s' =>
+      let a2 := if utf8Len s'.tok = maxTokenLen then ["tok-len-eq-max"] else []
+      tokArms s' cs (acc ++ a ++ a2)
+    | .failed => (acc ++ a ++ (if (a.contains "tok-flush") then ["tok-fail-elem"] else ["tok-fail-len"]), .failed)
+    | o => (acc ++ a, o)
+
+def dedup : List String → List String
+  | [] => []
+  | x :: r => if r.contains x then dedup r else x :: dedup r
+
+def armsText (cs : List Char) : List String :=
+  let (a, o) := tokArms ⟨[], false, []⟩ cs []
+  let fin := match o with
+    | .failed => []
+    | .run s | .broke s =>
+      (if s.esc then ["tok-ends-in-escape"] else []) ++
+      (if s.tok.isEmpty then ["fin-empty-token"]
+       else if s.elems.length = maxElements then ["fin-elems-eq-max"]
+       else (if s.elems.length + 1 = maxElements then ["fin-32-elements"] else []) ++ "fin-last" :: armsElem s.tok)
+  dedup (a ++ fin ++ [if (parsePath cs).isSome then "path-ok" else "path-err"])
+
+def armsPrint (p : Option (List Elem)) : List String :=
+  match p with
+  | none => ["pr-null-elements"]
+  | some es =>
+    [if es.length = 0 then "pr-len-0" else if es.length = 1 then "pr-len-1" else if es.length = maxElements then "pr-len-32"
+     else if es.length = maxElements + 1 then "pr-len-33" else if es.length > maxElements then "pr-len-many" else "pr-len-mid"] ++
+    dedup (es.flatMap fun e =>
+      (match browseName e.ref with
+       | none => [match e.ref.id with
+           | .numeric _ => if e.ref.ns = 0 then "pr-panic-numeric-unknown" else "pr-panic-numeric-nsN"
+           | _ => "pr-panic-guid-or-bytes"]
+       | some bn =>
+         (match printRefType e with
+          | some ['/'] => ["pr-slash"]
+          | some ['.'] => ["pr-dot"]
+          | _ => [match e.subtypes, e.inverse with
+              | true, false => "pr-angle" | false, false => "pr-angle-hash" | true, true => "pr-angle-bang" | false, true => "pr-angle-hashbang",
+              if e.ref.ns = 0 then "pr-ref-ns0" else "pr-ref-nsN",
+              match e.ref.id with
+              | .numeric _ => "pr-ref-std"
+              | _ => if bn.isEmpty then "pr-ref-empty-name" else if bn.any (fun c => reserved.contains c) then "pr-ref-reserved" else "pr-ref-plain"])) ++
+      [match e.target.name with
+       | none => if e.target.ns = 0 then "pr-target-null" else "pr-target-null-nsN"
+       | some n => if n.isEmpty then "pr-target-empty" else if n.any (fun c => reserved.contains c) then "pr-target-reserved" else "pr-target-plain"])
+
+def armsOf (toks : List String) : List String :=
+  match toks with
+  | ["rt", p] =>
+    match (treeOf p).bind pathOf with
+    | none => []
+    | some p => armsPrint p ++ (match printPath p with
+      | some text => armsText text
+      | none => [])
+  | ["parse", t] => (strTok? t).elim [] armsText
+  | ["parsenr", t] => (strTok? t).elim [] fun cs =>
+      [if (parsePathWith { current with noResolver := true } cs).isSome then "nr-ok"
+       else if (parsePath cs).isSome then "nr-err-unresolved" else "nr-err-syntax"]
+  | ["elem", t] => (strTok? t).elim [] fun cs => "elem-direct" :: armsElem cs
+  | _ => []
+
+def dstep (s : Unit) (toks : List String) : Unit × String :=
+  let r := (dstep0 s toks).2
+  let arms := dedup (armsOf toks)
+  (s, if r = "bad-op" ∨ arms.isEmpty then r else r ++ " @@ " ++ ",".intercalate arms)
 
 def driver : Driver := { σ := Unit, init := (), step := dstep }
 
